@@ -71,6 +71,35 @@ def make_witness_dir(path, ident):
         shutil.copy(os.path.join(WITNESS, f), os.path.join(path, "%s_%s" % (ident, f)))
 
 
+FURNITURE = {
+    ".gitignore": b"node_modules\nout/\ncache/\n",
+    ".gitattributes": b"*.sol linguist-language=Solidity\n",
+    ".env": b"PRIVATE_KEY=0x00\n",
+    "README.md": b"# project\n\n```solidity\ncontract X { function f() public { x++; } }\n```\n",
+    "foundry.toml": b"[profile.default]\nsrc = 'src'\nout = 'out'\n",
+    # a well-formed solstat configuration that was NOT named on the command line: it selects nothing
+    "Solstat.toml": b'path = "./nowhere"\noptimizations = []\nvulnerabilities = []\nqa = []\n',
+    "solstat.toml": b"\x00\xff not toml at all [[[\n",
+    "package.json": b'{"name": "project", "scripts": {"test": "forge test"}}\n',
+    "remappings.txt": b"@oz/=lib/openzeppelin-contracts/\n",
+    "solstat_report.md.bak": b"# an older report kept by hand\n- Old.sol:1\n",
+    os.path.join(".git", "HEAD"): b"ref: refs/heads/main\n",
+    os.path.join(".git", "info", "exclude"): b"# git ls-files --others --exclude-from=.git/info/exclude\n",
+    os.path.join(".github", "workflows", "ci.yml"): b"on: push\njobs: {}\n",
+}
+
+
+def furnish(path):
+    """The files a real project directory holds next to its contracts (version control, tool configuration, notes):
+    a run must neither read a meaning into them nor touch them."""
+    for rel, data in FURNITURE.items():
+        p = os.path.join(path, rel)
+        os.makedirs(os.path.dirname(p), exist_ok=True)
+        if not os.path.exists(p):
+            with open(p, "wb") as f:
+                f.write(data)
+
+
 def snapshot(root):
     """path -> (type, size, sha256, mode) for everything under root."""
     snap = {}
